@@ -50,13 +50,14 @@ def nhIsV4 : Nh → Bool
   | _ => false
 
 /-- Domain of the master theorem, announcements: a buildable, encodable Reach of an IPv4/IPv6 unicast/multicast
-    family on a session with 4-octet AS numbers on both sides; the recorded defect "IPv4 next hop inside
-    MP_REACH_NLRI" is excluded. -/
+    family on a session with 4-octet AS numbers on both sides; the recorded defect "IPv4 next hop padded inside
+    MP_REACH_NLRI" (F4d) is excluded: an IPv4 next hop only in the legacy encoding or for a family whose next hop
+    is written as is (IPv4 multicast). -/
 def domReach (i : Input) : Bool :=
   match i.msg with
   | .reach f (some nh) attrs es =>
       buildable i && encodable i && as4Both i.loc i.rem && !es.isEmpty && (isIpFam f).isSome &&
-      ((f == Fam.ipv4 && !extNhNegotiated i) || !nhIsV4 nh)
+      ((f == Fam.ipv4 && !extNhNegotiated i) || !nhIsV4 nh || nhAsIs f)
   | _ => false
 
 /-- Domain of the master theorem, withdrawals. -/
@@ -102,9 +103,13 @@ theorem attrsOk_of (attrs : List Attr) (h1 : attrs.all attrOk = true) (h2 : nodu
     decide_eq_false_iff_not, not_or] at this
   exact ⟨this.1, this.2.1, this.2.2.1, this.2.2.2.1, this.2.2.2.2⟩
 
-theorem nhMp_of (nh : Nh) (h : nhOk nh = true) (hv : nhIsV4 nh = false) : NhMp nh := by
+theorem nhMp_of (f : Fam) (nh : Nh) (h : nhOk nh = true) (hv : nhIsV4 nh = false ∨ nhAsIs f = true) : NhMp f nh := by
   cases nh with
-  | v4 a => simp [nhIsV4] at hv
+  | v4 a =>
+      rcases hv with hv | hv
+      · simp [nhIsV4] at hv
+      · simp only [nhOk, Bool.and_eq_true, beq_iff_eq] at h
+        exact ⟨h.1, hv⟩
   | v6 a => simp only [nhOk, Bool.and_eq_true, beq_iff_eq] at h; exact h.1
   | v6ll g l =>
       simp only [nhOk, Bool.and_eq_true, beq_iff_eq, Bool.not_eq_true'] at h
